@@ -22,7 +22,21 @@ MANIFEST = {
                 "capacity the implementation reports after each op, so a changed growth policy does not break the tie while every branch "
                 "decision still follows the code) (constructors, destructor, attach, operator=, assign, both prepend/append overloads "
                 "incl. a.prepend(a)/a.append(a)/a=a and a.prepend/append/assign((const byte*)a + off, n) with a sub-range of a's own bytes, resize, reserve, removeFront/Back, clear, swap, "
-                "free).  The model is tied to the current Buffer.hpp on every run: identical op lines are executed by a harness built from the "
+                "free).  Added in the extension round: capacity_policy_bound (after any history every _capacity is at most the largest "
+                "size any operation requested - Spec.demand on the reference queue - or the environment wished for; with today's policy the "
+                "capacity never exceeds the largest size ever requested, a sliding window re-uses its allocation), reserve_keeps_content "
+                "(reserve(n) in any reachable state: capacity >= n, not smaller than before, bytes and size of every variable unchanged), "
+                "observers_agree (size() = number of exposed bytes = length of the reference queue, isEmpty() iff none, owning => size() <= "
+                "capacity(), non-owning => capacity 0); PropsBacklog.backlog_faithful, the client-level theorem for the send backlog of "
+                "Server.cpp:343-357,459-475 (for every sequence of append chunk | removeFront k<=size | clear | free on a default Buffer and "
+                "every capacity policy: no fault, the Buffer exposes exactly the unsent suffix of the concatenation of the appended chunks, "
+                "terminator kept, capacity <= max(high-water mark of the unsent bytes, largest wish)); PropsRaw: (pointer,size) arguments "
+                "ANYWHERE in the Buffer's own allocation (head-room, exposed bytes, terminator, spare capacity) or attached range - model "
+                "Raw.lean (prependPtr/appendPtr/assignPtr, mixed histories runX) - raw_no_fault (histories whose raw ranges lie inside the "
+                "block of their variable where they are executed never fault: no out-of-range access, no use of released storage, no "
+                "overlapping memcpy), raw_correct (byte queue with the argument = the queue's bytes where it overlaps them, unspecified "
+                "elsewhere; terminator; attached memory; ledger), raw_arg_accepted, raw_outside_block_faults, runX_extends_run.  "
+                "The model is tied to the current Buffer.hpp on every run: identical op lines are executed by a harness built from the "
                 "current sources (fresh memory poisoned, attached ranges and data arguments handed out as exactly sized heap blocks so that "
                 "ASan sees any access outside them, attached blocks compared with their source after every op) and by the compiled model; "
                 "size, bytes, ownership flag, the byte after the data and the region contents are compared after every operation, `state` "
@@ -33,14 +47,18 @@ MANIFEST = {
                 "by the correspondence run, not proved).  Modelled rather than verified: memory is one checked block per Buffer object held by "
                 "value plus the allocation ledger (ids are never reused; the content of a deleted block is simply unreachable).  A (pointer, "
                 "size) argument is either memory outside the object's block (modelled by value) or a sub-range of the object's own exposed "
-                "bytes (ops prependsub/appendsub/assignsub - proved; Buffer arguments may be the object itself - proved); a pointer into the "
-                "own block but outside [bufferStart, bufferEnd] (head-room / spare capacity) is not a meaningful argument and not modelled.  Attached memory is not changed by the "
-                "caller while attached.  Allocation never fails; usize arithmetic does not wrap (Nat).  size(), capacity(), isEmpty() are "
-                "exercised by the correspondence run only.  No theorem is partial.",
+                "bytes (ops prependsub/appendsub/assignsub - proved; Buffer arguments may be the object itself - proved); or (ops prependraw/appendraw/assignraw, "
+                "PropsRaw) any sub-range of the object's own allocation; a range that is not inside one block (partly outside the "
+                "allocation) is a fault of the model.  capacity_policy_bound is stated for the 21 operations of Model.lean, not for "
+                "the raw operations (tie only).  The Server.cpp lines that use the backlog are not compiled into the harness: "
+                "backlog_faithful is about the Buffer model driven by the protocol those lines follow (scripted backlog streams tie it).  "
+                "Attached memory is not changed by the "
+                "caller while attached.  Allocation never fails; usize arithmetic does not wrap (Nat).  size(), capacity(), isEmpty() are modelled (observers_agree) and tied by the `state` "
+                "lines; operator const byte*/byte* is the pointer every observation reads through (tie only).  No theorem is partial.",
         "design_ref": "DESIGN.md 3/C08",
     }
 }
-PROPS = ["Nstd.Buffer.Props", "Nstd.Buffer.PropsBacklog"]
+PROPS = ["Nstd.Buffer.Props", "Nstd.Buffer.PropsBacklog", "Nstd.Buffer.PropsRaw"]
 LEAN_TARGETS = PROPS + ["drv_buffer"]
 DRIVER = "drv_buffer"
 REGLEN = [8, 5]
@@ -748,7 +766,7 @@ def histories_for(ctx):
 def check(ctx):
     ctx.assumptions += [
         "memory model of the Lean model: each Buffer holds its allocation / its attached range as a separate checked block; every access is validated against its extent and, for owned blocks, against the allocation ledger (block ids + live set; new/delete[] in C++ order)",
-        "data arguments given by (pointer, size) are outside the buffer's block or a sub-range of its own exposed bytes (both proved); pointers into head-room / spare capacity are not modelled",
+        "data arguments given by (pointer, size) are outside the buffer's block, a sub-range of its own exposed bytes, or any sub-range of its own allocation / attached range (all proved); a range that straddles the end of the allocation is a fault of the model",
         "allocation never fails",
     ]
     proof_ok = C.proof_stage(ctx, PROPS, [DRIVER], leanchecker=(ctx.tier == "thorough"))
